@@ -61,29 +61,61 @@ func (g *gen) limit(t *sqlh.TableDesc) sqlh.Filter {
 	return f
 }
 
+// dynamicFor makes a dynamic limit for a handle that already has the shard limit sh: the same limit, a
+// limit on other columns, the same columns with other values, or the shard limit plus another column.
+func (g *gen) dynamicFor(t *sqlh.TableDesc, sh sqlh.Filter) sqlh.Filter {
+	d := sqlh.Filter{}
+	switch k := g.R.Intn(100); {
+	case k < 35:
+		for c, v := range sh {
+			d[c] = v
+		}
+	case k < 60:
+		return g.limit(t)
+	case k < 80:
+		for c, v := range sh {
+			d[c] = g.Other(v)
+		}
+	default:
+		for c, v := range sh {
+			d[c] = v
+		}
+		for c, v := range g.limit(t) {
+			if _, ok := d[c]; !ok {
+				d[c] = v
+			}
+		}
+	}
+	return d
+}
+
+// setDynMode: strict (the callback rejects), report-only (it answers "continue"), no callback, nil filter.
+func (g *gen) setDynMode(h *sqlh.Handle, strict, report, nocb int) {
+	h.HasDyn = true
+	switch k := g.R.Intn(100); {
+	case k < strict:
+		h.DynCb = true
+	case k < strict+report:
+		h.DynCb, h.DynContinue = true, true
+	case k < strict+report+nocb:
+	default:
+		h.Dyn, h.DynCb = nil, true
+	}
+}
+
 func (g *gen) handle(t *sqlh.TableDesc) sqlh.Handle {
 	var h sqlh.Handle
 	k := g.R.Intn(100)
 	switch {
-	case k < 50:
+	case k < 35:
 		h.Shard = g.limit(t)
-	case k < 65:
-		h.HasDyn, h.Dyn, h.DynCb = true, g.limit(t), true
-	case k < 73:
-		h.HasDyn, h.Dyn, h.DynCb, h.DynContinue = true, g.limit(t), true, true
-	case k < 77:
-		h.HasDyn, h.Dyn = true, g.limit(t)
-	case k < 81:
-		h.HasDyn, h.DynCb = true, true
-	case k < 95:
+	case k < 59:
+		h.Dyn = g.limit(t)
+		g.setDynMode(&h, 55, 25, 10)
+	case k < 95: // both limits at once
 		h.Shard = g.limit(t)
-		h.HasDyn, h.Dyn, h.DynCb = true, g.limit(t), true
-		if g.R.Chance(50) { // same dynamic limit as the shard limit, so that a call can comply with both
-			h.Dyn = sqlh.Filter{}
-			for k, v := range h.Shard {
-				h.Dyn[k] = v
-			}
-		}
+		h.Dyn = g.dynamicFor(t, h.Shard)
+		g.setDynMode(&h, 45, 45, 5)
 	}
 	return h
 }
@@ -99,7 +131,11 @@ func copyFilter(f sqlh.Filter) sqlh.Filter {
 // readFilter derives a filter from the limits: complying, or broken in one of several ways.
 func (g *gen) readFilter(t *sqlh.TableDesc, h sqlh.Handle) (sqlh.Filter, string) {
 	f := sqlh.Filter{}
-	for _, l := range []sqlh.Filter{h.Dyn, h.Shard} {
+	order := []sqlh.Filter{h.Dyn, h.Shard} // the later one wins where both name a column with different values:
+	if g.R.Chance(35) {                    // the filter then violates exactly the other limit
+		order = []sqlh.Filter{h.Shard, h.Dyn}
+	}
+	for _, l := range order {
 		for k, v := range l {
 			f[k] = v
 		}
@@ -120,6 +156,14 @@ func (g *gen) readFilter(t *sqlh.TableDesc, h sqlh.Handle) (sqlh.Filter, string)
 	}
 	keys := f.Keys()
 	lk := append(h.Shard.Keys(), h.Dyn.Keys()...)
+	if h.Shard != nil && h.Dyn != nil { // aim the edit at one of the two limits
+		switch g.R.Intn(3) {
+		case 0:
+			lk = h.Shard.Keys()
+		case 1:
+			lk = h.Dyn.Keys()
+		}
+	}
 	mode := "comply"
 	k := g.R.Intn(100)
 	switch {
@@ -189,6 +233,17 @@ func asField(c *sqlh.ColDesc, v sqlh.GV, g *gen) (sqlh.GV, bool) {
 var nextID int64 = 1000
 
 func (g *gen) row(t *sqlh.TableDesc, h sqlh.Handle, comply bool) sqlh.Row {
+	// with both limits: comply with both, or with one of them only
+	if comply && h.Shard != nil && h.Dyn != nil {
+		switch g.R.Intn(10) {
+		case 0, 1:
+			h.Dyn = nil
+		case 2, 3:
+			h.Shard = nil
+		case 4: // where both name a column, the dynamic limit's value wins
+			h.Shard, h.Dyn = h.Dyn, h.Shard
+		}
+	}
 	r := make(sqlh.Row, len(t.Cols))
 	for i := range t.Cols {
 		c := &t.Cols[i]
